@@ -30,7 +30,9 @@ class Instance:
     self.construct = construct
 
   def key(self, prop):
-    return (prop, self.rule, self.func or '', self.construct or self.subject)
+    # locals renamed for hygiene when a helper was inlined (`name__h12`) are the helper's own `name`
+    import re as _re
+    return (prop, self.rule, self.func or '', _re.sub(r'__h\d+\b', '', self.construct or self.subject))
 
   def as_dict(self):
     d = {'rule': self.rule, 'subject': self.subject, 'status': self.status, 'where': self.loc}
